@@ -572,9 +572,18 @@ var startTargets = []string{
 func (w *world) targetCase(hdrHost, target string) c.Case {
 	status, location := 0, ""
 	var startedHost, recorded *string
-	conn, err := net.DialTimeout("tcp", w.addr, 5*time.Second)
-	if err == nil {
-		conn.SetDeadline(time.Now().Add(10 * time.Second))
+	// harness-side trouble (loopback dial or read timing out on a loaded machine) is retried; what the
+	// server answers is an observation
+	for attempt := 0; attempt < 4 && status == 0; attempt++ {
+		conn, err := net.DialTimeout("tcp", w.addr, 20*time.Second)
+		if err != nil {
+			if attempt == 3 {
+				c.Must(err)
+			}
+			time.Sleep(200 * time.Millisecond)
+			continue
+		}
+		conn.SetDeadline(time.Now().Add(60 * time.Second))
 		fmt.Fprintf(conn, "GET %s HTTP/1.1\r\nHost: %s\r\nConnection: close\r\n\r\n", target, hdrHost)
 		resp, err := http.ReadResponse(bufio.NewReader(conn), nil)
 		if err == nil {
@@ -583,8 +592,6 @@ func (w *world) targetCase(hdrHost, target string) c.Case {
 			resp.Body.Close()
 		}
 		conn.Close()
-	} else {
-		c.Must(err)
 	}
 	if status == http.StatusFound {
 		if loc, err := url.Parse(location); err == nil {
